@@ -415,6 +415,62 @@ def misc_bugclasses(prog, cfg_of_):
                                 f"'{stmt_text(st.value, 90)}' stores the one-element collection only when the key is new and "
                                 f"discards it otherwise: every further value of an existing key is lost (a step with "
                                 f"several same-named parents keeps the first one only)"))
+    # STALELOCAL: `v = <const>` before a loop, `v = <other const>` only under a condition inside it, and v is USED inside
+    # the loop on a path that passes no assignment of this iteration: once one element has switched v, every later
+    # element sees the switched value (a default computed per element must be reset per element)
+    for f in prog.all_funcs():
+        if f.module.generated:
+            continue
+        cfg = cfg_of_(f)
+        for h in [n for n in cfg.nodes if n.kind == 'for']:
+            def in_loop(n, h=h):
+                l = n.loop
+                while l is not None:
+                    if l is h:
+                        return True
+                    l = l.loop
+                return False
+            inside = [n for n in cfg.nodes if in_loop(n)]
+            defs_in = {}
+            for n in inside:
+                if n.kind == 'stmt' and isinstance(n.ast, ast.Assign) and len(n.ast.targets) == 1 \
+                        and isinstance(n.ast.targets[0], ast.Name):
+                    defs_in.setdefault(n.ast.targets[0].id, []).append(n)
+                elif n.kind in ('stmt', 'for', 'with'):
+                    for nm in cfg.defs_of(n):
+                        defs_in.setdefault(nm, []).append(None)
+            for v, dnodes in defs_in.items():
+                if None in dnodes or not all(isinstance(d.ast.value, ast.Constant) for d in dnodes):
+                    continue
+                outer = [d for d in cfg.reaching(h, v) if not in_loop(d) and d is not h]
+                if len(outer) != 1 or outer[0].kind != 'stmt' or not isinstance(outer[0].ast, ast.Assign) \
+                        or not isinstance(outer[0].ast.value, ast.Constant) or outer[0].loop is not h.loop:
+                    continue
+                init = outer[0].ast.value.value
+                if all(d.ast.value.value == init for d in dnodes):
+                    continue
+                dset = {d.idx for d in dnodes}
+                # uses inside the loop that hand v on (not a bare test of v, not its own definition)
+                for u in inside:
+                    if u.idx in dset or u.kind != 'stmt':
+                        continue
+                    reads = [x for x in ast.walk(u.ast) if isinstance(x, ast.Name) and x.id == v and isinstance(x.ctx, ast.Load)]
+                    if not reads:
+                        continue
+                    starts = [t for t, l in h.succ if l == 'T']
+                    reach = set()
+                    for t in starts:
+                        if t.idx in dset:
+                            continue
+                        reach |= {t.idx} | cfg.reachable_from(t, avoiding=dset | {h.idx})
+                    if u.idx in reach:
+                        d0 = next(d for d in dnodes if d.ast.value.value != init)
+                        out.append((f, u.ast, 'STALELOCAL',
+                                    f"'{v}' is set to {init!r} once before 'for {stmt_text(h.ast.target)} in "
+                                    f"{stmt_text(h.ast.iter, 40)}' and to {d0.ast.value.value!r} only under a condition inside it "
+                                    f"(line {d0.lineno}); '{stmt_text(u.ast, 60)}' uses it without a reset in the same iteration: "
+                                    f"after the first element that takes the branch, all later elements get {d0.ast.value.value!r} too"))
+                        break
     # LOGNORAISE: an error is logged and execution simply goes on.  Everywhere in this package `logger.error(..)`
     # announces a failure that is then raised / returned; a branch that only logs lets the caller continue with the
     # missing object (a None asset, an unresolved step) - the malformed input is half-processed instead of rejected
